@@ -75,13 +75,14 @@ CW(c) == IF CIsEmpty(c) THEN 0 ELSE c.e[2] - c.s[2] + 1
 CH(c) == IF CIsEmpty(c) THEN 0 ELSE c.e[1] - c.s[1] + 1
 CNew(a, b) == [s |-> a, e |-> b, inner |-> Zeros((b[1] - a[1] + 1) * (b[2] - a[2] + 1))]
 
-\* Range::from_sparse: rows from first/last cell, cols by scan, idx by get_mut (silently
-\* ignores an index outside the vector), later cells overwrite earlier ones
+\* Range::from_sparse: bounds by a scan over all cells (rows and columns; since the hardening
+\* commit the rows no longer come from the first / last cell), idx by get_mut (silently ignores
+\* an index outside the vector), later cells overwrite earlier ones
 CSparse(cs) ==
   IF cs = <<>> THEN CEmpty
   ELSE LET n    == Len(cs)
-           rs   == cs[1].p[1]
-           re   == cs[n].p[1]
+           rs   == SetMin({cs[i].p[1] : i \in 1..n})
+           re   == SetMax({cs[i].p[1] : i \in 1..n})
            cst  == SetMin({cs[i].p[2] : i \in 1..n})
            cen  == SetMax({cs[i].p[2] : i \in 1..n})
            cols == cen - cst + 1
